@@ -32,4 +32,9 @@ m = {
  "notes": "See DESIGN.md. Exit codes: 0 held, 1 VIOLATION line printed, 2 timeout/internal error. VERIF_SEED and VERIF_TIER are honoured."
 }
 json.dump(m, open(os.path.join(V, "MANIFEST.json"), "w"), indent=1)
+findings = []
+for p in sorted(glob.glob(os.path.join(V, "known_findings.d", "C*.json"))):
+    findings += json.load(open(p))
+json.dump({"_comment": "Merged from known_findings.d/*.json by tools/gen_manifest.py (never written at check run time). status=known: genuine defect recorded, not repaired: the check prints KNOWN-FINDING for exactly this key and still reports any other violation. status=fixed: repaired by the named fix: commit in /repo; suppresses nothing.",
+           "findings": findings}, open(os.path.join(V, "known_findings.json"), "w"), indent=1)
 print("MANIFEST.json:", len(checks), "checks,", len(m["not_applicable"]), "not_applicable")
